@@ -16,6 +16,7 @@ func CompileToGetCodeSet(ctx *RuntimeContext, typeptr uintptr) (*OpcodeSet, erro
 		if err != nil {
 			return nil, err
 		}
+		VerifCodeSet(typeptr, codeSet)
 		return getFilteredCodeSetIfNeeded(ctx, codeSet)
 	}
 	index := (typeptr - typeAddr.BaseTypeAddr) >> typeAddr.AddrShift
@@ -27,6 +28,7 @@ func CompileToGetCodeSet(ctx *RuntimeContext, typeptr uintptr) (*OpcodeSet, erro
 			return nil, err
 		}
 		setsMu.RUnlock()
+		VerifCodeSet(typeptr, filtered)
 		return filtered, nil
 	}
 	setsMu.RUnlock()
@@ -42,5 +44,6 @@ func CompileToGetCodeSet(ctx *RuntimeContext, typeptr uintptr) (*OpcodeSet, erro
 	setsMu.Lock()
 	cachedOpcodeSets[index] = codeSet
 	setsMu.Unlock()
+	VerifCodeSet(typeptr, filtered)
 	return filtered, nil
 }
